@@ -10,7 +10,9 @@ Part 1: `clean` for EVERY string: idempotent; its result has no ".", no empty se
 Part 2: Join against an absolute cleaned base, for EVERY name: the result is inside the base iff the name's segment
         walk never climbs above its start (`depthOK`).
 Part 3: per builder, for EVERY client value that passes the builder's validation as coded: the built path is inside the
-        data dir — `confined_<builder>`, at full strength, for all twelve builders.
+        data dir — `confined_<builder>`, at full strength, for all twelve builders and for the READER of the tags tree
+        (`confined_tagsTreeRead`: tag key of a tag filter of a metrics query; unchecked before repair c19-2:
+        `tagsTreeReadOld_counterexample`).
         Seven of them (lookupUpload, inputlookup, aliasFile, baseSegDir, baseVTableDir, suffixFile, tagsTreeFile) applied
         no validation to a value taken from a request body / form / query text before the `fix:` commits listed in
         known_findings.txt; their former definitions are kept as `…Old`, each with the theorem `…Old_counterexample`
@@ -385,6 +387,40 @@ theorem confined_tagsTreeFile : ConfinedDH tagsTreeFile := by
   split at h
   · rename_i hv; exact tagsTreeFileOld_partial d H hs v (simpleName_guard hv) p h
   · simp at h
+
+/-- tagsTreeRead BEFORE the repair (tag key of a tag filter of a metrics QUERY, appended to the tags tree directory of a
+    rotated segment unchecked and stat'ed / opened / read): the full statement was FALSE — `GET /otsdb/api/query?…&m=avg:m{../../../../../../x=v}`
+    made the server open and read x beside the data dir (known_findings: confine/oqK/read-outside). -/
+theorem tagsTreeReadOld_counterexample : ¬ ConfinedDH tagsTreeReadOld := by
+  intro h
+  exact absurd (h [['d']] ['H'] "../../../../../../x".toList ⟨true, [['x']]⟩ setup_example (by decide)) (by decide)
+
+/-- …and the empty key named the tags tree DIRECTORY itself (stat succeeds, the open directory is never closed) -/
+example : tagsTreeReadOld [['d']] ['H'] [] = some ⟨true, [['d'], ['H'], "final".toList, "tth".toList, MID, ['0']]⟩ := by decide
+
+theorem tagsTreeReadOld_partial (d : List Seg) (H : Seg) (hs : Setup d H) (v : Str) (hg : Guard v) (p : NPath)
+    (h : tagsTreeReadOld d H v = some p) : within (dataDir d) p :=
+  tagsTreeFileOld_partial d H hs v hg p h
+
+/-- C19.3 confined_tagsTreeRead: for EVERY tag key of EVERY tag filter of a metrics query (any protocol: the reader is the
+    only place where the key becomes a file name) the file the reader stats, opens and reads is inside the data dir — or the
+    key is answered like a key no series has. -/
+theorem confined_tagsTreeRead : ConfinedDH tagsTreeRead := by
+  intro d H v p hs h
+  unfold tagsTreeRead at h
+  split at h
+  · rename_i hv; exact tagsTreeReadOld_partial d H hs v (simpleName_guard hv) p h
+  · simp at h
+
+/-- reader and writer agree on every key: a key the writer can have stored is a key the reader opens, under the same name -/
+theorem tagsTreeRead_eq_write (d : List Seg) (H : Seg) (v : Str) : tagsTreeRead d H v = tagsTreeFile d H v := rfl
+
+theorem tagsTreeRead_is_pipe (d : List Seg) (H : Seg) (v : Str) : tagsTreeRead d H v = (tagKeyPipe d H).run v := by
+  unfold tagsTreeRead tagsTreeReadOld tagsTreeFileOld Pipe.run tagKeyPipe
+  by_cases hv : simpleName v = true <;> simp [hv]
+
+example : tagsTreeRead [['d']] ['H'] "host.name".toList = some ⟨true, [['d'], ['H'], "final".toList, "tth".toList, MID, ['0'], "host.name".toList]⟩ ∧
+    tagsTreeRead [['d']] ['H'] "../../../../../../x".toList = none ∧ tagsTreeRead [['d']] ['H'] [] = none ∧ tagsTreeRead [['d']] ['H'] "..".toList = none := by decide
 
 /-- names that are valid today keep working: letters, digits, '-', '_', inner dots, unicode -/
 example : (lookupUpload [['d']] "my-lookup_v1.2.csv".toList).isSome ∧ (baseSegDir [['d']] ['H'] "logs.2024-06".toList).isSome ∧
